@@ -94,3 +94,48 @@ def check_commit_order(mir, r):
             # blocks reachable from the call's successor avoiding consume blocks must include a return (error path exists untouched)
             if not f.can_reach_without(nxt, set(rets), set(cons)):
                 r.violate(key + "|err-edge", f"every path after {name} passes consume_lexeme, including its error edge", f.loc())
+
+
+def clause_eq_case_insensitive(r, mir):
+    """base::eq_case_insensitive decides attribute lookup, selector attribute tests and foreign-content
+    checks: it must compare lengths and then, byte by byte, the ASCII-lower-cased left byte with the
+    right byte — ASCII letters fold, every other byte (digits, punctuation, non-ASCII) compares exactly."""
+    f = mir.fn("base::eq_case_insensitive")
+    key = "eq_case_insensitive|shape"
+    cmps = []
+    bitops = []
+    lens = False
+    for b in f.blocks:
+        for st in b["stmts"]:
+            if st["k"] == "assign" and st["rv"]["k"] == "bin":
+                op = st["rv"]["op"]
+                a, c = f.deep(st["rv"]["a"]), f.deep(st["rv"]["b"])
+                if op in ("Ne", "Eq"):
+                    if "len(mixed_case)" in a + c and "len(lowercased)" in a + c:
+                        lens = True
+                    else:
+                        cmps.append((a, c))
+                elif op.startswith(("BitXor", "BitAnd", "BitOr", "Shl", "Shr", "Sub", "Add")) and "Range" not in a + c and "len(" not in a + c:
+                    bitops.append((op, a[:40], c[:40]))
+    ok_cmp = [1 for a, c in cmps if ("to_ascii_lowercase(mixed_case[" in a and c.startswith("lowercased[")) or ("to_ascii_lowercase(mixed_case[" in c and a.startswith("lowercased["))]
+    r.inst(key, sample={"byte_comparisons": [(a[:50], c[:50]) for a, c in cmps], "length_test": lens, "bit_arithmetic": bitops})
+    if not lens or len(ok_cmp) != 1 or len(cmps) != 1 or bitops:
+        r.violate(key, f"base::eq_case_insensitive no longer compares `mixed_case[i].to_ascii_lowercase()` with `lowercased[i]` after a length test (comparisons: {[(a[:40], c[:40]) for a, c in cmps]}, bit arithmetic: {bitops}): bytes that are not ASCII letters (`@` vs `` ` ``, `[` vs `{{`, non-ASCII lead bytes) could compare equal, so a lookup or selector would hit a different attribute", f.loc())
+
+
+def clause_open_name_counts_shrinks(r, mir):
+    """Stack.open_name_counts holds one entry per *currently open* element name: pop_up_to must remove
+    an entry when its count reaches zero, otherwise the map (with an owned copy of every tag name ever
+    seen) grows with the number of distinct names in the document instead of with the nesting depth."""
+    from ..mirlib import guarding_branches
+    f = mir.fn("Stack::pop_up_to")
+    key = "open_name_counts|entry-removed-at-zero"
+    rem = [(bi, t) for bi, t in f.calls(r"RawOccupiedEntryMut::remove(_entry)?$|HashMap::remove(_entry)?$|OccupiedEntry::remove(_entry)?$")]
+    ok = False
+    for bi, t in rem:
+        gs = [f.deep(f.blocks[sb]["term"]["d"]) for sb in guarding_branches(f, bi)]
+        if any("open_name_counts" in g and "Eq const 0" in g for g in gs):
+            ok = True
+    r.inst(key, sample={"remove_calls": len(rem)})
+    if not ok:
+        r.violate(key, "Stack::pop_up_to no longer removes an open_name_counts entry when its count drops to zero: the map keeps an owned copy of every distinct tag name ever opened (uncharged growth with the document's vocabulary), and a later stray end tag of that name walks the stack for nothing", f.loc())
